@@ -212,7 +212,13 @@ class Option(Evaluatable[A]):
     def explain(self, options: Optional[Options] = None) -> Set[str]:
         """Returns the keys required by the option."""
         options = options or {}
-        if dotted_key_exists(self.key, options):
+        try:
+            exists = dotted_key_exists(self.key, options)
+        except TypeError:
+            # A non-section value sits at a prefix of the key: the option cannot be
+            # evaluated (not even to its default), and the key is why
+            return {self.key}
+        if exists:
             value = get_dotted_key(self.key, options)
             keys = {self.key} | _templated_keys(value, options, explain=True)
         elif self.default is not MISSING:
